@@ -459,7 +459,7 @@ func c11Placement(rp c11Resp) string {
 	return out
 }
 
-func c11GenResp(rnd *rt.Rand, nextMsg *uint32, first bool) c11Resp {
+func c11GenResp(rnd *rt.Rand, nextMsg *uint32, curPS *int, first bool) c11Resp {
 	var rp c11Resp
 	cols := []srv.Col{colI4, colVC}
 	add := func(kind string, b []byte, p c11Pkg) {
@@ -493,7 +493,12 @@ func c11GenResp(rnd *rt.Rand, nextMsg *uint32, first bool) c11Resp {
 				}
 				if t == 4 {
 					nv = strconv.Itoa(rnd.Range(256, 65535))
-					ov = strconv.Itoa(rnd.Range(256, 65535))
+					ov = strconv.Itoa(*curPS)
+					if rnd.Chance(1, 3) {
+						// the server confirms the size already in use
+						nv = strconv.Itoa(*curPS)
+					}
+					*curPS, _ = strconv.Atoi(nv)
 				}
 				ms = append(ms, srv.EnvMember{Type: t, New: nv, Old: ov})
 				mm = append(mm, [3]string{strconv.Itoa(int(t)), ov, nv})
@@ -598,8 +603,9 @@ func runC11(c *Ctx) {
 		rnd := rt.NewRand(c.Seed, fmt.Sprintf("c11/%d", i))
 		var cs c11Case
 		var nextMsg uint32 = 1000
+		curPS := 512
 		for j := rnd.Range(1, 3); j > 0; j-- {
-			cs.Resps = append(cs.Resps, c11GenResp(rnd, &nextMsg, len(cs.Resps) == 0))
+			cs.Resps = append(cs.Resps, c11GenResp(rnd, &nextMsg, &curPS, len(cs.Resps) == 0))
 		}
 		if i < 3 {
 			r.Sample("case", cs)
